@@ -8,7 +8,7 @@ Ev(t, e) == l <= Len(Rec) /\ Rec[l].t = t /\ Rec[l].e = e /\ l' = l + 1
 Keep == UNCHANGED asend
 \* silent steps (not recorded): they do not consume the trace
 Silent == /\ UNCHANGED l
-          /\ \/ (REnqueue /\ Keep) \/ (ACheck /\ Keep) \/ (AEnqueue) \/ (RCheckStop /\ Keep) \/ (REofExit /\ Keep)
+          /\ \/ (REnqueue /\ Keep) \/ (ACheck /\ Keep) \/ (ATake /\ Keep) \/ (\E v \in Spawned : VTake(v) /\ Keep) \/ (AEnqueue) \/ (RCheckStop /\ Keep) \/ (REofExit /\ Keep)
              \/ (ExtStop /\ Keep /\ l <= Len(Rec) /\ Rec[l].stopnow)
 Observed ==
    \/ Ev("R", "send_start") /\ RSendStart(Rec[l].a) /\ Keep
